@@ -169,6 +169,7 @@ func eqStrs(a, b []string) bool {
 
 func runC08(c *mon.Ctx) {
 	w := NewWorld(BaseTime(c.Seed))
+	w.Pool = &SPPool{}
 	n := c.N(3000, 300000)
 	for k := 0; k < n; k++ {
 		cs := c.Begin("genuine", k)
